@@ -386,7 +386,57 @@ def _builtin_histories(self, tier, seed):
             import traceback
 
             out.append({"name": "bounded_builtin_megacomplexes_penalty_at_a_point_independent_of_history", "ok": False, "case": name, "function": "glotaran.optimization.optimizer:Optimizer.objective_function", "witness": {"model": name, "exception": repr(e), "trace": traceback.format_exc(limit=4)}, "detail": "the stand-in itself failed"})
+    out.append(_failing_run_leaves_the_callers_parameters(DecayParallelMegacomplex, Model, Parameters, Scheme, rng, time, pixel))
     return out
+
+
+def _failing_run_leaves_the_callers_parameters(DecayParallelMegacomplex, Model, Parameters, Scheme, rng, time, pixel):
+    """B: an optimisation that fails after some good evaluations (raise_exception=False) and one that succeeds: the caller's
+    parameters - free, fixed, fixed non-negative, expression - are bit for bit what they were, same objects, same flags."""
+    import warnings
+
+    import numpy as np
+    import xarray as xr
+
+    from glotaran.optimization.optimize import optimize
+
+    name = "bounded_callers_parameters_unchanged_by_successful_and_failing_runs"
+    fn = "glotaran.optimization.optimize:optimize"
+    try:
+        spec = {"megacomplex": {"m": {"type": "decay-parallel", "compartments": ["s1", "s2"], "rates": ["k.1", "k.2"]}}, "dataset": {"d": {"megacomplex": ["m"], "scale": "sc.1"}}}
+        model = Model.create_class_from_megacomplexes([DecayParallelMegacomplex])(**spec)
+        bad = []
+        for failing in (False, True):
+            parameters = Parameters.from_dict({"k": [0.6, ["2", 0.15, {"vary": False, "non-negative": True}]], "sc": [["1", 3.0, {"vary": False, "non-negative": True}]], "x": [["dbl", 0.0, {"expr": "$k.1 * 2"}], ["one", 1.0, {"vary": False, "non-negative": True}]]})
+            data = xr.DataArray(rng.normal(size=(len(time), len(pixel))) + 5.0, coords=[("time", time), ("pixel", pixel)]).to_dataset(name="data")
+            scheme = Scheme(model=model, parameters=parameters, data={"d": data}, add_svd=False, maximum_number_function_evaluations=6)
+            before = [(q.label, repr(q.value), type(q.value).__name__, q.vary, q.non_negative, q.expression, repr(q.minimum), repr(q.maximum), id(q)) for q in parameters.all()]
+            real = DecayParallelMegacomplex.calculate_matrix
+            calls = {"n": 0}
+
+            def faulty(self, *a, _real=real, **k):
+                calls["n"] += 1
+                if failing and calls["n"] == 4:
+                    raise RuntimeError("injected")
+                return _real(self, *a, **k)
+
+            DecayParallelMegacomplex.calculate_matrix = faulty
+            try:
+                with warnings.catch_warnings():
+                    warnings.simplefilter("ignore")
+                    result = optimize(scheme, verbose=False, raise_exception=False)
+            finally:
+                DecayParallelMegacomplex.calculate_matrix = real
+            after = [(q.label, repr(q.value), type(q.value).__name__, q.vary, q.non_negative, q.expression, repr(q.minimum), repr(q.maximum), id(q)) for q in scheme.parameters.all()]
+            if after != before:
+                bad.append({"run": "failing at the 4th evaluation" if failing else "successful", "changed": [(b_[0], b_[1:3], a_[1:3]) for b_, a_ in zip(before, after) if b_ != a_][:4]})
+            if failing and result.success:
+                bad.append({"run": "failing", "why": "the injected fault did not make the run fail (harness)"})
+        return {"name": name, "ok": not bad, "case": "successful run / run failing at the 4th evaluation", "function": fn, "witness": {"failures": bad} if bad else None, "detail": "native optimize() on a builtin decay model with free, fixed, fixed non-negative and expression parameters (bounded stand-in)"}
+    except Exception as e:
+        import traceback
+
+        return {"name": name, "ok": False, "case": "harness", "function": fn, "witness": {"exception": repr(e), "trace": traceback.format_exc(limit=4)}, "detail": "the stand-in itself failed"}
 
 
 NonInterference.bounded_checks = _builtin_histories
